@@ -234,7 +234,8 @@ Proof. intros H1 H2. unfold serve, serve_tail. destruct (k_kind r0) as [|[|[|k]]
 
 (* the rest of the body is being held back *)
 Definition late_tail (i : nat) (r : reply) (tl : list item) : Prop :=
-  k_framing r = FLen /\ k_first r <= k_sent r /\ k_sent r < k_n r /\ exists more, tl = cont i r ++ IHold :: more.
+  (k_framing r = FLen \/ k_framing r = FChunked) /\ k_first r <= k_sent r /\ k_sent r < k_n r /\
+  exists more, tl = cont i r ++ IHold :: more.
 
 Lemma in_app3 (x : item) a b c : In x (a ++ b ++ c) -> In x a \/ In x b \/ In x c.
 Proof. intros H. apply in_app_or in H as [H|H]; [left; exact H|]. apply in_app_or in H as [H|H]; [right; left|right; right]; exact H. Qed.
@@ -268,7 +269,7 @@ Proof.
         -- intros _. unfold served_tail, cont; cbn [k_first k_sent k_n k_framing]. eexists; split; [reflexivity|].
            split; [lia|]. split; [lia|]. intros _. eexists; right; reflexivity.
         -- intros _. split; [reflexivity|]. unfold late_tail, cont; cbn [k_first k_sent k_n k_framing].
-           split; [reflexivity|]. split; [lia|]. split; [lia|]. eexists; reflexivity.
+           split; [left; reflexivity|]. split; [lia|]. split; [lia|]. eexists; reflexivity.
       * replace (Nat.min (k_sent r0) (k_n r0)) with (k_n r0) by lia. rewrite Nat.eqb_refl.
         unfold is_late; cbn [negb andb app].
         split.
@@ -291,15 +292,17 @@ Proof.
       * replace (Nat.min (k_sent r0) (k_n r0)) with (k_sent r0) by lia.
         replace (Nat.eqb (k_sent r0) (k_n r0)) with false by (symmetry; apply Nat.eqb_neq; lia).
         unfold is_late; cbn [negb andb app k_stray k_framing].
-        assert (Hnl : (match (match k_stray r0 with SLate => SLate | _ => SNone end), FChunked with SLate, FLen => true | _, _ => false end) = false)
-          by (destruct (k_stray r0); reflexivity).
-        rewrite Hnl. rewrite orb_true_r; cbn [orb app].
+        destruct (k_stray r0) eqn:Hst; cbn [app].
+        all: try (split; [intros _; unfold served_tail, cont; cbn [k_first k_sent k_n k_framing]; eexists; split; [reflexivity|];
+                          split; [lia|]; split; [lia|]; intros _; rewrite orb_true_r; cbn [orb]; eexists; left; reflexivity
+                         |rewrite orb_true_r; cbn [orb]; intros Hin; exfalso; apply in_app_or in Hin as [Hin|Hin];
+                          [destruct (Nat.ltb _ _); cbn in Hin; [destruct Hin as [Hin|[]]; discriminate|contradiction]
+                          |cbn in Hin; destruct Hin as [Hin|[]]; discriminate]]).
         split.
         -- intros _. unfold served_tail, cont; cbn [k_first k_sent k_n k_framing]. eexists; split; [reflexivity|].
-           split; [lia|]. split; [lia|]. intros _. eexists; left; reflexivity.
-        -- intros Hin. exfalso. apply in_app_or in Hin as [Hin|Hin].
-           ++ destruct (Nat.ltb _ _); cbn in Hin; [destruct Hin as [Hin|[]]; discriminate|contradiction].
-           ++ cbn in Hin; destruct Hin as [Hin|[]]; discriminate.
+           split; [lia|]. split; [lia|]. intros _. eexists; right; reflexivity.
+        -- intros _. split; [reflexivity|]. unfold late_tail, cont; cbn [k_first k_sent k_n k_framing].
+           split; [right; reflexivity|]. split; [lia|]. split; [lia|]. eexists; reflexivity.
       * replace (Nat.min (k_sent r0) (k_n r0)) with (k_n r0) by lia. rewrite Nat.eqb_refl.
         unfold is_late; cbn [negb andb app].
         split.
@@ -574,10 +577,11 @@ Qed.
 
 Lemma to_end_late i r tl amt : late_tail i r tl -> snd (fst (to_end i r false tl amt)) = true.
 Proof.
-  intros (Hf & Hfs & Hsn & more & ->). unfold to_end. rewrite Hf.
+  intros (Hf & Hfs & Hsn & more & ->). unfold to_end.
   pose proof (pull_late i r more (k_n r) Hfs Hsn) as Hp.
-  destruct (pull (k_n r) (k_first r) (cont i r ++ IHold :: more)) as [[[ch have] it] short]. cbn [snd] in Hp. subst short.
-  destruct amt; reflexivity.
+  destruct Hf as [Hf|Hf]; rewrite Hf;
+    destruct (pull (k_n r) (k_first r) (cont i r ++ IHold :: more)) as [[[ch have] it] short]; cbn [snd] in Hp; subst short;
+    destruct amt; reflexivity.
 Qed.
 
 (* ... and no way of disposing of it sends the connection back to the pool open *)
@@ -591,11 +595,13 @@ Proof.
   - destruct (to_end i r false tl None) as [[d0 e0] it0] eqn:E. rewrite (Hend _ _ _ _ E). intros H; inversion H; discriminate.
   - destruct (Nat.leb (k_n r) k && negb (match k_framing r with FEof => true | _ => false end)).
     + destruct (to_end i r false tl None) as [[d0 e0] it0] eqn:E. rewrite (Hend _ _ _ _ E). intros H; inversion H; discriminate.
-    + destruct (pull k (k_first r) tl) as [[[ch have] it0] short]. rewrite Hf. destruct short; intros H; inversion H; discriminate.
-  - unfold nothing_to_read. rewrite Hf. cbn [orb]. replace (Nat.eqb (k_n r) 0) with false by (symmetry; apply Nat.eqb_neq; lia).
-    intros H; inversion H; discriminate.
-  - unfold nothing_to_read. rewrite Hf. cbn [orb]. replace (Nat.eqb (k_n r) 0) with false by (symmetry; apply Nat.eqb_neq; lia).
-    cbn [negb andb]. intros H; inversion H; discriminate.
+    + destruct (pull k (k_first r) tl) as [[[ch have] it0] short]. destruct Hf as [Hf|Hf]; rewrite Hf; destruct short; intros H; inversion H; discriminate.
+  - assert (Hnr : nothing_to_read r false = false)
+      by (unfold nothing_to_read; destruct Hf as [Hf|Hf]; rewrite Hf; cbn [orb]; [apply Nat.eqb_neq; lia|reflexivity]).
+    rewrite Hnr. intros H; inversion H; discriminate.
+  - assert (Hnr : nothing_to_read r false = false)
+      by (unfold nothing_to_read; destruct Hf as [Hf|Hf]; rewrite Hf; cbn [orb]; [apply Nat.eqb_neq; lia|reflexivity]).
+    rewrite Hnr. cbn [negb andb]. intros H; inversion H; discriminate.
   - destruct (to_end i r false tl None) as [[d0 e0] it0] eqn:E. rewrite (Hend _ _ _ _ E). intros H; inversion H; discriminate.
   - intros H; inversion H; discriminate.
   - destruct (to_end i r false tl (Some (Nat.max a0 1))) as [[d0 e0] it0] eqn:E. rewrite (Hend _ _ _ _ E). intros H; inversion H; discriminate.
